@@ -10,13 +10,28 @@ sys.path.insert(0, os.path.join(os.path.dirname(os.path.abspath(__file__)), '..'
 import common
 import e2e_common as E
 import pipeline_common as P
+import regex_screen as RX
 from gen import hostile as HG
 from gen import catalog as CAT
 from gen import cfmt as GC
 from gen import pyfmt as GP
 
 LINE_RE = re.compile(r'\A[EWIP]: [^\n]*\Z')
-HANG_S = 90            # wall seconds after which one file (≤ 256 KiB) counts as a hang
+def _bad_class():
+    """a character class of everything in categories Cc, Cf, Zl, Zp, Cs, as ranges"""
+    out, start, prev = [], None, None
+    for c in range(sys.maxunicode + 1):
+        if unicodedata.category(chr(c)) in ('Cc', 'Cf', 'Zl', 'Zp', 'Cs'):
+            if start is None:
+                start = c
+            prev = c
+        elif start is not None:
+            out.append((start, prev)); start = None
+    if start is not None:
+        out.append((start, prev))
+    return '[' + ''.join('\\U%08x-\\U%08x' % r for r in out) + ']'
+BAD_CHAR_RE = re.compile(_bad_class())     # what must never reach a terminal unescaped
+HANG_S = 45            # wall seconds after which one file (≤ 256 KiB) counts as a hang (the slowest file of the unchanged tree needs ~2 s)
 _worker = {}
 
 def _init_worker():
@@ -41,7 +56,6 @@ def run_case(case):
     idx, data, ext, opts = case
     H = _worker['H']
     from lib import tags, ling
-    import unicodedata
     sub = opts.get('subdir', '')
     d = os.path.join(_worker['dir'], sub if sub else 'plain')
     os.makedirs(d, exist_ok=True)
@@ -94,7 +108,7 @@ def run_case(case):
         except BaseException as exc:
             out.update(kind='crash', exc=type(exc).__name__, site='tag.format:' + name, msg=str(exc)[:200], tb='')
             return out
-        bad = (not LINE_RE.match(line)) or any(unicodedata.category(c) in ('Cc', 'Cf', 'Zl', 'Zp', 'Cs') for c in line)
+        bad = (not LINE_RE.match(line)) or BAD_CHAR_RE.search(line) is not None
         if bad:
             out.update(kind='badline', line=line[:300], tag=name)
             return out
@@ -102,28 +116,115 @@ def run_case(case):
     out['tags'] = sorted(set(names))
     return out
 
-def run_cases(cases, workers, on_result):
-    """map run_case over cases in worker processes; a case that does not return within HANG_S is a hang"""
-    i = 0
-    while i < len(cases):
-        pool = multiprocessing.Pool(workers, initializer=_init_worker)
-        it = pool.imap(run_case, cases[i:], chunksize=1)
+def _worker_loop(conn):
+    try:
+        _init_worker()
+    except BaseException as exc:     # noqa
+        conn.send({'idx': -1, 'kind': 'worker-init-failed', 'msg': repr(exc)[:300]})
+        return
+    while True:
         try:
-            while i < len(cases):
+            case = conn.recv()
+        except EOFError:
+            return
+        if case is None:
+            return
+        try:
+            conn.send(run_case(case))
+        except BaseException as exc:     # noqa
+            try:
+                conn.send({'idx': case[0], 'kind': 'crash', 'exc': 'HarnessError', 'site': 'harness', 'msg': repr(exc)[:200], 'tb': '', 'cpu': 0})
+            except Exception:
+                return
+
+def run_cases(cases, workers, on_result, hang_s=None, max_hangs=3, depends=None):
+    """run_case over the cases in `workers` child processes, one case at a time per child; a case that does not return within
+    `hang_s` wall seconds is a hang: only its child is killed.  After `max_hangs` hangs the remaining cases are not run (reported
+    to `on_result` as kind 'skipped').  `depends[idx] = idx of a smaller case`: a case is not run (kind 'hang', skipped_after=…)
+    when the smaller one hung or needed more than a quarter of the limit."""
+    import multiprocessing.connection as mpc
+    hang_s = hang_s or HANG_S
+    depends = depends or {}
+    ctx = multiprocessing.get_context('fork')
+    pending = collections.deque(cases)
+    done = {}
+    busy = {}        # conn -> (proc, case, t0)
+    idle = []        # (proc, conn)
+    hangs = 0
+    def spawn():
+        parent, child = ctx.Pipe()
+        pr = ctx.Process(target=_worker_loop, args=(child,))
+        pr.daemon = True
+        pr.start()
+        child.close()
+        return pr, parent
+    def finish(case, r):
+        done[case[0]] = r
+        on_result(r)
+    try:
+        while pending or busy:
+            # hand out work
+            postponed = 0
+            while pending and (idle or len(busy) < workers) and postponed <= len(pending):
+                case = pending.popleft()
+                if hangs >= max_hangs:
+                    finish(case, {'idx': case[0], 'kind': 'skipped', 'cpu': 0, 'ntags': 0})
+                    continue
+                dep = depends.get(case[0])
+                if dep is not None:
+                    if dep not in done:
+                        pending.append(case)
+                        postponed += 1
+                        continue
+                    d = done[dep]
+                    if d['kind'] in ('hang', 'skipped') or d.get('cpu', 0) > hang_s / 4:
+                        finish(case, {'idx': case[0], 'kind': 'hang', 'cpu': hang_s, 'ntags': 0, 'skipped_after': dep})
+                        continue
+                pr, conn = idle.pop() if idle else spawn()
+                conn.send(case)
+                busy[conn] = (pr, case, time.time())
+            if not busy:
+                if pending and postponed > len(pending):
+                    # only cases waiting for cases that will never finish: cannot happen (dependencies are acyclic), but do not spin
+                    case = pending.popleft()
+                    finish(case, {'idx': case[0], 'kind': 'skipped', 'cpu': 0, 'ntags': 0})
+                continue
+            for conn in mpc.wait(list(busy), timeout=0.5):
+                pr, case, t0 = busy.pop(conn)
                 try:
-                    r = it.next(timeout=HANG_S)
-                except multiprocessing.TimeoutError:
-                    on_result({'idx': cases[i][0], 'kind': 'hang', 'cpu': HANG_S, 'ntags': 0})
-                    i += 1
-                    break
-                except StopIteration:
-                    i = len(cases)
-                    break
-                on_result(r)
-                i += 1
-        finally:
-            pool.terminate()
-            pool.join()
+                    r = conn.recv()
+                except (EOFError, OSError):
+                    r = {'idx': case[0], 'kind': 'crash', 'exc': 'WorkerDied', 'site': 'process', 'msg': 'the worker process died (exit code %r)' % (pr.exitcode,), 'tb': '', 'cpu': time.time() - t0}
+                    finish(case, r)
+                    continue
+                if r.get('kind') == 'worker-init-failed':
+                    raise common.Infra('worker could not import the tool: ' + r.get('msg', ''))
+                finish(case, r)
+                idle.append((pr, conn))
+            now = time.time()
+            for conn in list(busy):
+                pr, case, t0 = busy[conn]
+                if now - t0 > hang_s:
+                    busy.pop(conn)
+                    pr.terminate()
+                    pr.join(2)
+                    if pr.is_alive():
+                        pr.kill()
+                    conn.close()
+                    hangs += 1
+                    finish(case, {'idx': case[0], 'kind': 'hang', 'cpu': hang_s, 'ntags': 0})
+    finally:
+        for pr, conn in idle:
+            try:
+                conn.send(None)
+            except Exception:
+                pass
+        for pr, conn in idle:
+            pr.join(1)
+            if pr.is_alive():
+                pr.terminate()
+        for conn, (pr, case, t0) in busy.items():
+            pr.terminate()
 
 def lang_ok(s):
     """would `-l s` be accepted?  (decided by the harness on the real ling module, only to know what to expect of the run)"""
@@ -190,13 +291,21 @@ def model_streams(chk, rng):
 
 def main():
     chk = common.Check('C01')
+    sect = {}
+    chk.coverage['section_wall_s'] = sect
     chk.prove('I18n.Props.C01', generated=('excmap',))
     rng = chk.rng
     model_streams(chk, rng)
     mult = 3 if chk.broken else 1
+    # regex screen: in a child process, collected in section 4
+    rx_samples = [(HG._wrap('#. type: Content of: <para>\n' + HG._msg('c-format, range: 1..2', '<a>%d</a>', '<a>%d</a>') + HG._msg('python-brace-format', '{0:{1}}', '{0!r:>{1}}') +
+                            HG._msg('perl-brace-format', '{a}', '{a}') + HG._msg('python-format', '%(a)s', '%(a)s'), extra_fields='X-Poedit-Language: Polish\n'), '.po'),
+                  (b"# SOME DESCRIPTIVE TITLE.\n# Copyright (C) YEAR THE PACKAGE'S COPYRIGHT HOLDER\n" + HG._wrap(HG._msg('', 'a', 'b')), '.pot'), (HG._mo_n(2), '.mo')]
+    rx = RX.Screen(rx_samples, limit_s=100 if chk.thorough else 70)
     n_files = (30000 if chk.thorough else 4000) * mult
     workers = 4
 
+    sect['proof+model-streams'] = round(time.time() - chk.t0 - sum(sect.values()), 1)
     # ---------------------------------------------------------------- 1. in-process crash/hang search
     cases = []
     descr = {}
@@ -230,6 +339,7 @@ def main():
         for t in r.get('tags', ()):
             tagcount[t] += 1
         if r['kind'] in ('crash', 'badline', 'hang'):
+            r.setdefault('exc', '?'); r.setdefault('site', '?')
             key = ('crash:%s:%s' % (r['exc'], r['site'].split(':')[0] if r['exc'] == 'RecursionError' else r['site'])) if r['kind'] == 'crash' else r['kind'] + ':' + r.get('tag', '?')
             crashes.setdefault(key, []).append(r)
         if r.get('cpu', 0) > 5:
@@ -250,6 +360,7 @@ def main():
                'replay': 'write the bytes to a file with the extension and run /repo/i18nspector on it (options as given)'}
         chk.violation(f"{r['kind']} on a generated file ({key})", rep, key=key)
 
+    sect['in-process'] = round(time.time() - chk.t0 - sum(sect.values()), 1)
     # ---------------------------------------------------------------- 2. the command line: rc, stderr, line grammar, options
     n_cli = (600 if chk.thorough else 90) * mult
     with E.Workdir() as wd:
@@ -363,9 +474,11 @@ def main():
                                                                      'expected': 'exit status 0, empty stderr, only tag lines'}, key=key)
         chk.coverage['command_line'] = {'runs': len(runs), 'outcomes': dict(cli_stats), 'special_cases': n_special, 'by_case': dict(cli_kinds)}
 
+    sect['command-line'] = round(time.time() - chk.t0 - sum(sect.values()), 1)
     # ---------------------------------------------------------------- 3. size doubling (time bounded by a low-degree polynomial)
     fam_stats = {}
     tcases = []
+    tdeps = {}
     steps = 4 if chk.thorough else 3
     for name, (fn, ext, base) in sorted(HG.TIMING_FAMILIES.items()):
         for s in range(steps):
@@ -376,10 +489,12 @@ def main():
                 raise common.Infra(f'timing family {name} failed to generate: {exc!r}')
             if len(data) > 300000:
                 break
+            if s > 0 and name in fam_stats:
+                tdeps[len(tcases)] = len(tcases) - 1
             tcases.append((len(tcases), data, ext, {'basename': 'pl'}))
             fam_stats.setdefault(name, []).append({'n': n, 'bytes': len(data)})
     tres = {}
-    run_cases(tcases, 4, lambda r: tres.__setitem__(r['idx'], r))
+    run_cases(tcases, 4, lambda r: tres.__setitem__(r['idx'], r), max_hangs=6, depends=tdeps)
     chk.evaluations += len(tcases)
     k = 0
     for name in sorted(fam_stats):
@@ -410,6 +525,108 @@ def main():
                           key=f'time:{name}')
     chk.coverage['timing'] = fam_stats
 
+    sect['timing-families'] = round(time.time() - chk.t0 - sum(sect.values()), 1)
+    # ---------------------------------------------------------------- 4. every regex reachable from lib.*: structural screen, pump strings, direct timing
+    rxr = rx.result()
+    pumps = []          # (description, function n -> string)
+    if 'hang' in rxr or 'error' in rxr:
+        if 'hang' in rxr:
+            chk.violation('a regular expression of lib/ did not return within the time limit on a pump string', {'kind': 'regex-hang', 'in_progress': rxr['hang'],
+                          'expected': 'matching time bounded by a low-degree polynomial of the subject length'}, key='time:regex-hang')
+        else:
+            chk.broken.append({'kind': 'falsifier', 'problem': 'regex screen failed: ' + rxr['error'][-400:]})
+        chk.coverage['regex_screen'] = {k: str(v)[:300] for k, v in rxr.items()}
+    else:
+        flagged = []
+        for e in rxr['screened']:
+            m = e['measure']
+            where = e['where'][0] if e['where'] else '?'
+            flagged.append({'where': where, 'reason': e['reason'], 'pump': e['pump'][:60], 'exponent': m and m['exponent'], 'time_s': m and m['time_s']})
+            pumps.append(('regex:%s#%d' % (where, e['hit_index']), (lambda n, e=e: RX.pump_for(e['pattern'], e['flags'], e['hit_index'], n, ' \x00'))))
+            pumps.append(('regex:%s#%d:unclosed' % (where, e['hit_index']), (lambda n, e=e: RX.pump_for(e['pattern'], e['flags'], e['hit_index'], n, '')[:-1])))
+            if m and m['exponent'] >= 3.0 and m['time_s'] >= 0.05:
+                subject = RX.pump_for(e['pattern'], e['flags'], e['hit_index'], m['string_n'], m['killer'] if m['killer'] != '<truncated>' else '')
+                if m['killer'] == '<truncated>':
+                    subject = subject[:-1]
+                rep = {'kind': 'regex-superlinear', 'pattern': e['pattern'], 'flags': e['flags'], 'where': e['where'], 'screen': e['reason'], 'measure': m,
+                       'subject_repr': repr(subject[:300]), 'subject_length': len(subject),
+                       'expected': 'matching time bounded by a low-degree polynomial of the subject length (measured growth exponent %.1f)' % m['exponent'],
+                       'replay': 're.compile(pattern, flags).search/match/fullmatch/finditer on the subject; through the tool: see slot_run'}
+                # through the tool: the same subject in every slot, a few sizes below the one that took the regex 0.3 s
+                slot_cases = []
+                for slot, data, ext in HG.slot_files(subject):
+                    slot_cases.append((len(slot_cases), data, ext, {'basename': 'pl'}))
+                sres = {}
+                run_cases(slot_cases, 4, lambda r: sres.__setitem__(r['idx'], r), hang_s=15, max_hangs=2)
+                chk.evaluations += len(slot_cases)
+                worst = max(sres.values(), key=lambda r: r.get('cpu', 0)) if sres else None
+                if worst is not None:
+                    slot = HG.slot_files(subject)[worst['idx']]
+                    rep['slot_run'] = {'slot': slot[0], 'extension': slot[2], 'outcome': worst['kind'], 'cpu_s': round(worst.get('cpu', 0), 3),
+                                       'file_repr': repr(slot[1]) if len(slot[1]) < 4000 else slot[1].hex()}
+                chk.violation(f"regular expression {where}: matching time grows like n^{m['exponent']} on a pump string ({m['time_s']} s at {len(subject)} characters)", rep,
+                              key='time:regex:' + where)
+        chk.coverage['regex_screen'] = {'patterns': rxr['patterns'], 'screened_repeats': len(rxr['screened']), 'flagged': flagged,
+                                        'inventory': [(x['where'][0] if x['where'] else '?') for x in rxr['all']]}
+
+    sect['regex-screen'] = round(time.time() - chk.t0 - sum(sect.values()), 1)
+    # ---------------------------------------------------------------- 5. pump strings in every slot (two sizes)
+    generic = [('a', lambda n: 'a' * n), ('%', lambda n: '%' * n), ('{', lambda n: '{' * n), ('<a>', lambda n: '<a>' * (n // 3)), ('backslash', lambda n: '\\' * n),
+               ('@a.', lambda n: '@a.' * (n // 3)), ('0', lambda n: '0' * n), ('%1$s', lambda n: '%1$s' * (n // 4)), ('{0}', lambda n: '{0}' * (n // 3)), ('blank', lambda n: ' ' * n),
+               ('a b', lambda n: 'a b ' * (n // 4)), ('{0[', lambda n: '{0' + '[a]' * (n // 3)), ('%(', lambda n: '%(' * (n // 2)), ('n+', lambda n: 'n+' * min(n // 2, 150) + 'n' + ' ' * n)]
+    if not chk.thorough:
+        generic = rng.sample(generic, 5)
+    sizes = (4000, 64000) if chk.thorough else (2000, 16000)
+    sweep = []
+    swdeps = {}
+    for what, fn in generic + pumps:
+        first = {}
+        for n in sizes:
+            try:
+                subject = fn(n)
+            except Exception:
+                continue
+            for slot, data, ext in HG.slot_files(subject):
+                if n == sizes[0]:
+                    first[slot] = len(sweep)
+                elif slot in first:
+                    swdeps[len(sweep)] = first[slot]
+                sweep.append((len(sweep), data, ext, {'basename': 'pl'}, what, slot, n))
+    swres = {}
+    run_cases([c[:4] for c in sweep], 4, lambda r: swres.__setitem__(r['idx'], r), hang_s=30, max_hangs=4, depends=swdeps)
+    chk.evaluations += len(sweep)
+    by = {}
+    for c in sweep:
+        by.setdefault((c[4], c[5]), {})[c[6]] = swres.get(c[0], {'kind': 'hang', 'cpu': HANG_S})
+    sweep_stats = collections.Counter()
+    slowest = []
+    for (what, slot), d in sorted(by.items()):
+        small, large = d.get(sizes[0]), d.get(sizes[1])
+        if small is None or large is None:
+            continue
+        for r, n in ((small, sizes[0]), (large, sizes[1])):
+            sweep_stats[r['kind']] += 1
+            if r['kind'] in ('crash', 'badline'):
+                idx = [c[0] for c in sweep if (c[4], c[5], c[6]) == (what, slot, n)][0]
+                key = ('crash:%s:%s' % (r['exc'], r['site'].split(':')[0] if r['exc'] == 'RecursionError' else r['site'])) if r['kind'] == 'crash' else 'badline:' + r.get('tag', '?')
+                chk.violation(f"{r['kind']} with pump string {what!r} x{n} in slot {slot} ({key})",
+                              {'kind': r['kind'], 'pump': what, 'slot': slot, 'n': n, 'extension': sweep[idx][2], 'file_hex': sweep[idx][1].hex() if len(sweep[idx][1]) < 40000 else sweep[idx][1][:40000].hex(),
+                               'observed': {k: r.get(k) for k in ('exc', 'site', 'msg', 'tb', 'line', 'tag')}, 'expected': 'Checker.check returns normally'}, key=key)
+        slowest.append((round(large.get('cpu', 0), 3), what, slot))
+        ratio = large.get('cpu', 0) / max(small.get('cpu', 0), 0.02)
+        degree = (ratio and (__import__('math').log(max(ratio, 1e-9)) / __import__('math').log(sizes[1] / sizes[0])))
+        if large['kind'] == 'hang' or small['kind'] == 'hang' or (large.get('cpu', 0) > 1.5 and degree > 3.3):
+            idx = [c[0] for c in sweep if (c[4], c[5], c[6]) == (what, slot, sizes[1])][0]
+            kind = 'hang' if 'hang' in (large['kind'], small['kind']) else 'superpolynomial-growth'
+            chk.violation(f'{kind}: pump string {what!r} in slot {slot}: {sizes[0]} -> {round(small.get("cpu", 0), 3)} s, {sizes[1]} -> {round(large.get("cpu", 0), 3)} s',
+                          {'kind': kind, 'pump': what, 'slot': slot, 'sizes': sizes, 'cpu_s': [small.get('cpu'), large.get('cpu')], 'extension': sweep[idx][2],
+                           'file_repr_prefix': repr(sweep[idx][1][:1500]), 'file_bytes': len(sweep[idx][1]),
+                           'expected': 'CPU time bounded by a low-degree polynomial of the size (degree estimate above 3.3 over the two sizes, or no answer within %d s)' % HANG_S,
+                           'replay': 'tools/gen/hostile.py slot_files(<pump string of the given size>) — the file of that slot written to pl<extension>, then /repo/i18nspector on it'},
+                          key=f'time:slot:{what}:{slot}')
+    chk.coverage['slot_sweep'] = {'pumps': [w for w, _ in generic + pumps], 'sizes': sizes, 'files': len(sweep), 'outcomes': dict(sweep_stats), 'slowest_cpu_s': sorted(slowest, reverse=True)[:6]}
+
+    sect['slot-sweep'] = round(time.time() - chk.t0 - sum(sect.values()), 1)
     if chk.broken and not chk.violations:
         chk.violation('proof obligation no longer checks', {'broken': chk.broken}, no_input=True)
     chk.finish(
